@@ -260,7 +260,12 @@ def run_case(case, rec):
             free = [k for k in KEYS if k not in batched]
             if free:
                 obs_eq = {free[0]: rng.uniform(0.4, 1.6, (B, 1))}
-        batch = pr.batch(param_batch=tabs, obs_eq=obs_eq)
+        tabs_given = tabs
+        if case["seed"] % 4 == 1:
+            # a hand-built batch of scalars: one value per sample, shape (B,) instead of (B, 1)
+            tabs_given = {k: v[:, 0] for k, v in tabs.items()}
+            rec.count("param_batches_of_shape_(B,)")
+        batch = pr.batch(param_batch=tabs_given, obs_eq=obs_eq)
         sig = "param-batch/%s" % case["kind"]
         try:
             total, terms = guard.call(ev, loss, params, batch)
@@ -489,6 +494,22 @@ def run_system(case, rec, rng):
                           "system term %s: batched %r, mean of unbatched %r" % (t, float(terms[t]), acc[t]))
         if t in exp and not close(float(terms[t]), exp[t], 1e-8, 1e-10):
             rec.violation(sig + "/%s/value" % t, "system term %s = %r, numpy expectation %r" % (t, float(terms[t]), exp[t]))
+    # the caller's params_dict already holds an (earlier) batch under the batched keys: this call's batch overrides it
+    if case["seed"] % 2 == 0:
+        stale = ParamsDict(nn_params=pd.nn_params,
+                           eq_params={k: (jnp.asarray(rng.uniform(2.0, 3.0, (B, 1))) if k in batched else jnp.asarray(snap[k]))
+                                      for k in snap})
+        rec.count("stale_batch_in_caller_params")
+        try:
+            _, ts = guard.call(loss.evaluate, stale, batch)
+        except guard.Crash as c:
+            rec.violation(sig + "/stale-batch-in-caller-params/crash", "caller's eq_params hold an earlier batch for %s: %s" % (batched, c))
+            ts = None
+        for t in (acc if ts is not None else ()):
+            if not close(float(ts[t]), float(terms[t]), 1e-9, 1e-11):
+                rec.violation(sig + "/%s/stale-batch-in-caller-params" % t,
+                              "system term %s = %r when the caller's eq_params hold an earlier batch for %s, %r otherwise"
+                              % (t, float(ts[t]), batched, float(terms[t])))
     rec.set_sample(kind=case["kind"], batched=batched, terms={k: float(v) for k, v in terms.items()}, loop=acc)
 
 
